@@ -38,6 +38,9 @@ LEVEL_TEXT = (
 )
 LEVEL_NOTE = "Trusted: CPython sys.settrace semantics, the 150-line scheduler in vpchk/sched.py, Hypothesis."
 TECHNIQUE = "bounded-preemption systematic schedule exploration (harness-owned scheduler) + Hypothesis-generated schedules"
+#: thorough tier: seed-dependent tasks are repeated under this many derived seeds (run.py); the listed task functions enumerate fixed domains
+THOROUGH_REPS = 3
+DETERMINISTIC_FNS = ('t_one_preemption',)
 
 TRACKED = (REPO + "/passlib", REPO + "/libpass")
 INIT_FUNCS = {"_lazy_init", "__getattribute__", "set_backend", "_set_backend", "_stub_requires_backend", "_set_calc_checksum_backend", "_load_backend_mixin",
